@@ -199,6 +199,7 @@ SegRules(t, sa, inv, lcp, minLen, maxLen, cbs, pairwise) ==
 (***************************************************************************)
 (* ---- the stages of the sort driver against the stage model ---- *)
 DSS == INSTANCE DivSufSort
+TRS == INSTANCE TrSortImpl
 RECURSIVE MaxByte(_, _, _)
 MaxByte(t, i, acc) == IF i > Len(t) THEN acc ELSE MaxByte(t, i + 1, IF t[i] > acc THEN t[i] ELSE acc)
 
@@ -252,6 +253,17 @@ StageRules(e) ==
                      (x # y /\ f[x + 1] = f[y + 1]) =>
                         /\ x + dk < m /\ y + dk < m
                         /\ \A j \in 0..dk - 1 : SubRank(x + j) = SubRank(y + j)>>,
+       (* the transcribed rank sort (TrSortImpl.tla) run on the arrays the    *)
+       (* real driver handed to trSort must leave exactly the arrays the     *)
+       (* real trSort left, and start every round from the same ranks        *)
+       <<"DRIFT09.trsort_exact",
+         (e.m = m /\ m > 0 /\ m <= 100 /\ Len(e.s2) = 2 * m /\ Len(e.s3) = 2 * m) =>
+           LET sa0  == [i \in 0..m - 1 |-> e.s2[i + 1]]
+               isa0 == [i \in 0..m - 1 |-> e.s2[m + i + 1]]
+               tr   == TLCEval(TRS!TrSort(sa0, isa0, 0))
+           IN /\ \A i \in 0..m - 1 : tr.sa[i] = e.s3[i + 1] /\ tr.isa[i] = e.s3[m + i + 1]
+              /\ Len(tr.rounds) = Len(e.rounds)
+              /\ \A k \in 1..Len(e.rounds) : \A i \in 0..m - 1 : tr.rounds[k][i] = e.rounds[k][i + 1]>>,
        <<"DRIFT09.stage3_bstar_order",
          (e.m = m /\ m > 0) => (Len(e.s3) = 2 * m /\ \A l \in 0..m - 1 : e.s3[m + l + 1] = SufRank(l))>>,
        <<"DRIFT09.stage_m", e.m = r.m>>,
@@ -284,6 +296,18 @@ SuffixRules(e) ==
       }
     [] e.op = "suffixcfg" -> SortRules(e, "DRIFT09")
     [] e.op = "suffixstages" -> StageRules(e)
+    [] e.op = "trsort" ->
+      (* the real trSort on an input enumerated by TrSortMC: TLC runs the    *)
+      (* transcription (TrSortImpl.tla) on the recorded input                *)
+      LET k    == Len(e.sa)
+          sa0  == [i \in 0..k - 1 |-> e.sa[i + 1]]
+          isa0 == [i \in 0..k - 1 |-> e.isa[i + 1]]
+          tr   == TLCEval(TRS!TrSort(sa0, isa0, e.thr))
+      IN { <<"DRIFT09.trsort_exact",
+             /\ Len(e.sa_after) = k /\ Len(e.isa_after) = k
+             /\ \A i \in 0..k - 1 : tr.sa[i] = e.sa_after[i + 1] /\ tr.isa[i] = e.isa_after[i + 1]
+             /\ Len(tr.rounds) = Len(e.rounds)
+             /\ \A r \in 1..Len(e.rounds) : \A i \in 0..k - 1 : tr.rounds[r][i] = e.rounds[r][i + 1]>> }
     [] e.op = "sortprim" ->
       (* contract of trHeapSort / trInsertionSort (SortPrims.tla) on the      *)
       (* recorded result: permutation, keys ascend, an entry is complemented *)
@@ -318,7 +342,7 @@ SuffixRules(e) ==
                   <<"C10.lcp_untouched", e.lcp_after = e.lcp>> }
     [] e.op = "panic" ->
       IF e.in = "segments" THEN { <<"C10.no_panic", FALSE>> }
-      ELSE IF e.in \in {"suffixcfg", "suffixstages", "trcopy", "sortprim"} THEN { <<"DRIFT09.no_panic", FALSE>> }
+      ELSE IF e.in \in {"suffixcfg", "suffixstages", "trcopy", "sortprim", "trsort"} THEN { <<"DRIFT09.no_panic", FALSE>> }
       ELSE { <<"C09.no_panic", FALSE>> }
     [] e.op = "timeout" ->
       IF e.in = "segments" THEN { <<"C10.no_hang", FALSE>> } ELSE { <<"C09.no_hang", FALSE>> }
